@@ -10,7 +10,7 @@ import rustlex as L
 FILES = {"src/client.rs": ["u_conn", "u_parse"], "src/request.rs": ["u_newreq", "u_req"], "src/response.rs": ["u_resp", "u_cte"],
          "src/common.rs": ["u_parse", "u_cmp"], "src/util/sequential.rs": ["u_seq", "u_readers"], "src/util/equal_reader.rs": ["u_readers"],
          "src/util/fused_reader.rs": ["u_readers"], "src/util/messages_queue.rs": ["u_queue"], "src/util/task_pool.rs": ["u_pool", "u_worker"],
-         "src/util/refined_tcp_stream.rs": ["u_tcp"], "src/util/mod.rs": ["u_cte"]}
+         "src/util/refined_tcp_stream.rs": ["u_tcp"], "src/util/mod.rs": ["u_cte"], "src/lib.rs": ["u_task", "u_queue"]}
 SWAP = {("<", "="): "<", (">", "="): ">"}
 def f_is_table(src, pos):
     """a `NNN => "reason phrase"` arm: outside every property"""
@@ -36,6 +36,14 @@ def sites(src):
             elif two == "!=": rep(i, sg[k + 1], "==", "!= -> ==")
             elif two == "&&": rep(i, sg[k + 1], "||", "&& -> ||")
             elif two == "||" and pv is not None and pv.text not in ("(", ",", "=", "move"): rep(i, sg[k + 1], "&&", "|| -> &&")
+        if t.kind == "punct" and t.text == "!" and nx is not None and nx.kind == "ident" and pv is not None and pv.text in ("if", "&", "|", "(", "=", "while", "{", "return", ">") \
+                and not (k + 2 < len(sg) and toks[sg[k + 2]].text in ("(", "[", "{") and nx.text.endswith(("assert", "matches", "vec", "format", "println", "write", "unreachable", "panic", "debug", "error", "cfg"))):
+            rep(i, i, "", "negation removed")
+        if t.kind == "punct" and t.text in ("+", "-") and pv is not None and (pv.kind in ("ident", "num") or pv.text in (")", "]")) and nx is not None and (nx.kind in ("ident", "num") or nx.text == "(") \
+                and not (nx.kind == "punct" and nx.text in ("=", ">")) and not (k + 1 < len(sg) and toks[sg[k + 1]].pos == t.pos + 1 and toks[sg[k + 1]].text in ("=", ">")):
+            rep(i, i, "-" if t.text == "+" else "+", "%s -> %s" % (t.text, "-" if t.text == "+" else "+"))
+        if t.kind == "ident" and t.text in ("min", "max") and pv is not None and pv.text == ".":
+            rep(i, i, "max" if t.text == "min" else "min", "%s swapped" % t.text)
         if t.kind == "ident" and t.text in ("true", "false"):
             rep(i, i, "false" if t.text == "true" else "true", "%s flipped" % t.text)
         if t.kind == "num" and re.match(r"^[0-9]+$", t.text) and pv is not None and pv.text not in (".", "(") or (t.kind == "num" and t.text in ("1024", "8192", "4096")):
@@ -82,6 +90,12 @@ def main():
         src = open(os.path.join(repo, f)).read()
         for s in sites(src):
             cands.append((f,) + s)
+    import glob
+    done = set()
+    for jf in glob.glob(os.path.join(HERE, ".work", "mutation_sweep-*.json")) + glob.glob(os.path.join(HERE, "notes", "mutation_sweep-*.json")):
+        for r in json.load(open(jf)):
+            done.add((r["file"], r["line"], r["what"]))
+    cands = [c for c in cands if (c[0], c[5], c[4]) not in done]
     random.shuffle(cands)
     cands = cands[:mx]
     res = []
